@@ -50,6 +50,10 @@ impl Vm {
                     self.bp = 0;
                     self.ep = usize::MAX;
                     self.acc = VCell::undefined();
+                    // Collect as a successful evaluation does: what the abandoned
+                    // evaluation allocated is garbage now, and a session that only ever
+                    // fails must not grow the heap without bound.
+                    self.run_gc();
                     return Err(e);
                 }
             }
